@@ -89,7 +89,9 @@ PROPS = {
         "bounded": {"search": "C10", "quick": "6s", "thorough": "60s",
                     "what": "Satisfies('(E) AND (F)') = Satisfies(E) && Satisfies(F), likewise OR, operand order, spacing and parentheses, on enumerated expressions and lists (BOUNDED cross-check)"},
         "assumptions": DEFS_BY_CODE + [
-            "corollary: by C01 the verdict IS sem(tree, covered), a function of the Boolean function the tree denotes, and by C06 the extracted set contains every leaf; the obligations are those of C01 and C06 (listed again here); the spec-level lemma that sem is invariant under Boolean-algebra rewrites is not mechanised",
+            "proved: the verdict is semL(tree, allowed list) (Satisfies, clause verdictIsSemL, with the chain of C01 and C07), and ExtractLicenses returns exactly the canonical strings of the leaves of the tree (C06: noTermMissing, noneInvented); the obligations of C01 and C06 are listed again here",
+            "proved (lemmas about the spec functions): semL decomposes over AND / OR and satisfies commutativity, associativity, both distributive laws, idempotence and absorption; the leaf set is unchanged by commutation, regrouping, repetition and distribution",
+            "not mechanised: closure of these laws under contexts and sequences of rewrites (congruence of semL / leafOf in a sub-tree: immediate from their recursive form), and that the TEXT '(E) AND (F)', extra spaces and redundant parentheses parse to the corresponding trees (token level of C05: '( E )' has the tree of E, spaces produce no token; concatenation of token sequences is not a stated lemma)",
         ],
     },
     "C11": {
